@@ -281,6 +281,15 @@ class PropertyDescriptor(Symbol):
                 for v in inferred_values:
                     attr._add_item(v, inferred=False, add_relation_to_the_graph=False)
         else:
+            if value is None:
+                # nothing is asserted: what was inferred into the field stays derivable from the relations it was
+                # inferred from (the constructor assigns the default of a super property after an earlier field
+                # asserted a sub property)
+                inferred_values = self._inferred_values_of(obj)
+                if inferred_values:
+                    value = inferred_values[-1]
+                    setattr(obj, self.private_attr_name, value)
+                    return
             setattr(obj, self.private_attr_name, value)
             self.add_relation_to_the_graph(obj, value)
 
